@@ -122,13 +122,15 @@ func (s *socket) SendMsg(m *protocol.Message) error {
 }
 
 func (s *socket) RecvMsg() (*protocol.Message, error) {
+	// The deadline is armed once: a queue resize while we wait must not
+	// start it over.
+	timeQ := nilQ
 	for {
 		s.Lock()
-		timeQ := nilQ
 		recvQ := s.recvQ
 		sizeQ := s.sizeQ
 		closeQ := s.closeQ
-		if s.recvExpire > 0 {
+		if s.recvExpire > 0 && timeQ == nil {
 			timeQ = time.After(s.recvExpire)
 		}
 		s.Unlock()
